@@ -182,11 +182,13 @@ def _nan_grouped_op(group_idx, array, func, fillna, *args, **kwargs):
         fillna = dtypes._get_fill_value(kwargs.get("dtype", None) or array.dtype, fillna)
     result = func(group_idx, np.where(isnull(array), fillna, array), *args, **kwargs)
     # np.nanmax([np.nan, np.nan]) = np.nan
-    # To recover this behaviour, we need to search for the fillna value
-    # (either np.inf or -np.inf), and replace with NaN
+    # To recover this behaviour, we need to find the groups with no valid member
+    # and replace with NaN. We cannot search for the fillna value (either np.inf or -np.inf)
+    # in the result, since that may be the true extreme value of a group.
     # Our choice of fillna does the right thing for sum, prod
     if fillna in (np.inf, -np.inf):
-        allnangroups = result == fillna
+        counts = nanlen(group_idx, array, axis=kwargs.get("axis", -1), size=kwargs.get("size"), fill_value=0)
+        allnangroups = counts == 0
         if allnangroups.any():
             result[allnangroups] = kwargs["fill_value"]
     return result
